@@ -69,7 +69,7 @@ func cmdCheck(args []string) int {
 	}
 	tmo := *timeout
 	if tmo == 0 {
-		tmo = 10
+		tmo = 20
 		if *tier == "thorough" {
 			tmo = 60
 		}
@@ -189,7 +189,11 @@ func cmdCheck(args []string) int {
 	work := filepath.Join(root, ".work", *prop)
 	_ = os.RemoveAll(work)
 	_ = os.MkdirAll(work, 0755)
+	loadSolverHints(root)
 	results := solveAll(obls, filepath.Join(work, "smt"), tmo, runtime.NumCPU())
+	if os.Getenv("GOVC_WRITE_HINTS") != "" {
+		writeSolverHints(root, obls, results)
+	}
 
 	// known findings
 	var ff FindingsFile
